@@ -70,8 +70,11 @@ Proof. unfold g_Circuit_post_init, ground_node. destruct cs as [|c0 cs']; [refle
   cbn [List.length Nat.eqb].
   rewrite (filter_ext' (fun c => label_eqb (ctype R c) (lbl "ground")) (is_ground R) (c0 :: cs') ctype_ground).
   unfold first_node. destruct (mapM _ (filter (is_ground R) (c0 :: cs'))) as [gn|e]; cbn [bind map_res]; [|reflexivity].
-  destruct (Nat.ltb 1 (List.length gn)); [reflexivity|].
-  destruct gn as [|g gn']; cbn [List.length Nat.eqb list_at nth_error bind].
+  destruct (Nat.ltb 1 (List.length gn)) eqn:Many; [reflexivity|].
+  (* after the check there is no ground node or exactly one: the selection is written `len == 0` or `len == 1` in the source *)
+  cbv zeta. rewrite ?map_length.
+  destruct gn as [|g [|g' gn']]; [| |cbn [List.length] in Many; discriminate Many];
+    cbn [List.length Nat.eqb list_at nth_error bind].
   - destruct (node_at R c0 0) as [g|e]; cbn [bind map_res]; [|reflexivity].
     destruct (negb _); reflexivity.
   - destruct (negb _); reflexivity. Qed.
@@ -207,15 +210,15 @@ Proof. rewrite cx_post_nf. cbv beta. destruct (bind (gtc circ w wres) (@solve_ne
 Theorem cx_get_voltage_eq (self : ComplexSolution R) id :
   g_ComplexSolution_get_voltage R sqrt2 self id = c_voltage R sqrt2 (to_csol self) id.
 Proof. unfold g_ComplexSolution_get_voltage, c_voltage, unpeak, to_csol. cbn [cs_sol cs_peak].
-  destruct (ComplexSolution_peak_values R self); [symmetry; apply bind_Ok_r|reflexivity]. Qed.
+  destruct (ComplexSolution_peak_values R self); rewrite ?bind_Ok_r; reflexivity. Qed.
 Theorem cx_get_current_eq (self : ComplexSolution R) id :
   g_ComplexSolution_get_current R sqrt2 self id = c_current R sqrt2 (to_csol self) id.
 Proof. unfold g_ComplexSolution_get_current, c_current, unpeak, to_csol. cbn [cs_sol cs_peak].
-  destruct (ComplexSolution_peak_values R self); [symmetry; apply bind_Ok_r|reflexivity]. Qed.
+  destruct (ComplexSolution_peak_values R self); rewrite ?bind_Ok_r; reflexivity. Qed.
 Theorem cx_get_potential_eq (self : ComplexSolution R) l :
   g_ComplexSolution_get_potential R sqrt2 self l = c_potential R sqrt2 (to_csol self) l.
 Proof. unfold g_ComplexSolution_get_potential, c_potential, unpeak, to_csol. cbn [cs_sol cs_peak].
-  destruct (ComplexSolution_peak_values R self); [symmetry; apply bind_Ok_r|reflexivity]. Qed.
+  destruct (ComplexSolution_peak_values R self); rewrite ?bind_Ok_r; reflexivity. Qed.
 Theorem cx_get_power_eq (self : ComplexSolution R) id :
   g_ComplexSolution_get_power R sqrt2 self id = c_power R sqrt2 (to_csol self) id.
 Proof. unfold g_ComplexSolution_get_power, c_power. rewrite !cx_get_voltage_eq, !cx_get_current_eq.
